@@ -8,7 +8,7 @@ THEOREMS = ["C20_tables_agree", "C20_split_matches_go", "C20_split_partition", "
             "C20_no_false_reject", "C20_unknown_rejected_for_reverse_map", "C20_source_tie",
             "C20_test_flags_after_packages_refuted"]
 
-VALUES = ["x", "./out", "a,b", "-tiny", "-s -w", "-X=main.version=1.0-debug", "a=b", "regexp.*", "4", "-", "--", "a-seed", "main.go",
+VALUES = ["-race", "-modcacherw", "-tags", "-v", "x", "./out", "a,b", "-tiny", "-s -w", "-X=main.version=1.0-debug", "a=b", "regexp.*", "4", "-", "--", "a-seed", "main.go",
           "-debugdir=x", "./..."]
 PKGS = [".", "./...", "./cmd/x", "example.com/p", "main.go", "x.go", "./a/b"]
 
@@ -236,8 +236,43 @@ def run(res, tier, seed, replay):
         if gargv and argv and gargv[-len(argv):] != argv:
             res.violation("passthrough:" + " ".join(argv)[:50], "garble %s %s ran `go %s`: the user's arguments are not passed unchanged"
                           % (cmd, " ".join(argv), " ".join(gargv)), {"command": cmd, "argv": argv, "go_argv": gargv})
-    res.cov["evaluations"] += len(bb_cases)
-    res.cov["blackbox_runs"] = len(bb_cases)
+    # reverse / map: flags the go command does not know (or that are not build flags) must be rejected
+    um_cases = [("map", ["-badflag", "foo", "."], True), ("reverse", ["-badflag", "foo", "."], True),
+                ("map", ["-run", "TestFoo", "."], True), ("map", ["-badflag=foo", "."], True), ("map", ["-tags", "x", "."], False)]
+    for _ in range(30 if tier == "quick" else 300):
+        cmd = r.choice(["map", "reverse"])
+        argv = [t for t in gen_argv(r, tables, "build") if t.startswith("-") or True]
+        f_, a_ = [], []
+        # keep only the flag part of a well-formed build command line, then add an unknown flag in flag position
+        flagpart = []
+        for t in argv:
+            if not t.startswith("-") and not (flagpart and flagpart[-1].startswith("-") and "=" not in flagpart[-1]
+                                              and not any(g["name"] == flagpart[-1].lstrip("-") and g["bool"] for g in tables["go_flags"])):
+                break
+            flagpart.append(t)
+        bad = r.random() < 0.7
+        ins = r.choice([["-badflag", "foo"], ["-badflag=foo"], ["-run", "X"], ["-count=1"], ["-o", "-race"], ["-exec", "-modcacherw"]]) if bad else []
+        # only forwarded build flags are acceptable to reverse/map
+        fl = []
+        i = 0
+        ok_so_far = True
+        um_cases.append((cmd, ins + ["."], bad)) if r.random() < 0.5 else um_cases.append((cmd, ["-tags", "t"] + ins + ["."], bad))
+    def one_um(case):
+        cmd, argv, expect_reject = case
+        pr, log = run_map(garble, stub, [rec], [], argv, pkgs=(), command=cmd)
+        return case, pr.returncode, pr.stderr.decode(errors="replace")
+    with concurrent.futures.ThreadPoolExecutor(8) as ex:
+        um_results = list(ex.map(one_um, um_cases))
+    for (cmd, argv, expect_reject), rc, err in um_results:
+        rejected_ = rc != 0 and ("flag provided but not defined" in err)
+        if expect_reject and not rejected_:
+            res.violation("unknown-flag-accepted:" + " ".join(argv)[:50], "garble %s %s: a flag that is not a build flag is accepted instead of rejected (exit %d, stderr %r)"
+                          % (cmd, " ".join(argv), rc, err[-200:]), {"command": cmd, "argv": argv, "exit": rc, "stderr": err})
+        if not expect_reject and "flag provided but not defined" in err:
+            res.violation("build-flag-rejected:" + " ".join(argv)[:50], "garble %s %s: a build flag is rejected" % (cmd, " ".join(argv)),
+                          {"command": cmd, "argv": argv, "exit": rc, "stderr": err})
+    res.cov["evaluations"] += len(bb_cases) + len(um_cases)
+    res.cov["blackbox_runs"] = len(bb_cases) + len(um_cases)
     for i in bad_bb:
         cmd, argv, largv, gargv, reject, rc, err = bb_meta[i]
         # classify with the spec: is this a case where the spec (go's rule) is violated, or only the model?
